@@ -76,6 +76,23 @@ pub mod c15 {
         if m < 0.0 { m += 4294967296.0; }
         m as u32
     }
+    // R4-R6 controls: printers that print a computed mantissa, a second default printer, precision formatting
+    pub mod print {
+        pub fn number_to_string(n: f64) -> String {
+            if n.abs() >= 1e21 { format_exponential(n) } else { format!("{}", n) }
+        }
+        fn format_exponential(n: f64) -> String {
+            let exponent = n.abs().log10().floor() as i32;
+            let mantissa = n / 10f64.powi(exponent);
+            format!("{}e+{}", mantissa, exponent)
+        }
+        pub fn second_printer(n: f64) -> String {
+            format!("{}", n)
+        }
+        pub fn to_fixed(n: f64, digits: usize) -> String {
+            format!("{:.prec$}", n, prec = digits)
+        }
+    }
 }
 
 // C10 controls for the range-guard recognizer
